@@ -632,4 +632,30 @@ theorem mul_chain {w n : Nat} {a0 a1 b : List Nat} (hw : 1 ≤ w) (hn : 1 ≤ n)
     rw [k3]
   nlinarith [t, g3]
 end UI
+
+namespace II
+theorem saturatingMul_side {w n : Nat} {a b : List Nat} (hw : 2 ≤ w) (hn : 1 ≤ n)
+    (ha : WF w n a) (hb : WF w n b) (hov : ¬ repS (M w n) (S w a * S w b)) :
+    (0 < S w a * S w b → saturatingMul w a b = iMax w n) ∧
+    (S w a * S w b < 0 → saturatingMul w a b = iMin w n) := by
+  have hw1 : 1 ≤ w := by omega
+  have hm := M_even hw1 hn
+  obtain ⟨h1, h2⟩ := saturatingMul_spec hw hn ha hb
+  constructor
+  · intro hz
+    apply MulAux.eq_of_S_eq h1 (WF_iMax hw1 hn)
+    rw [h2, S_iMax hw1 hn, clampS_hi hm (by unfold repS at hov; omega)]
+  · intro hz
+    apply MulAux.eq_of_S_eq h1 (WF_iMin hw1 hn)
+    rw [h2, S_iMin hw1 hn, clampS_lo hm (by unfold repS at hov; omega)]
+end II
+end Bnum
+
+namespace Bnum
+/-- `BInt::overflowing_mul`, expanded form -/
+theorem II.i_overflowingMul_spec {w n : Nat} {a b : List Nat} (hw : 2 ≤ w) (hn : 1 ≤ n)
+    (ha : WF w n a) (hb : WF w n b) :
+    S w (II.overflowingMul w a b).1 = wrapS (M w n) (S w a * S w b) ∧
+    ((II.overflowingMul w a b).2 = true ↔ ¬ repS (M w n) (S w a * S w b)) :=
+  ⟨(II.overflowingMul_spec hw hn ha hb).2.1, (II.overflowingMul_spec hw hn ha hb).flag_iff⟩
 end Bnum
